@@ -62,6 +62,15 @@ def check(ctx, cfg):
     r5(ctx, cfg)
     r6(ctx, cfg)
     r7(ctx, cfg)
+    r8(ctx, cfg)
+
+
+def r8(ctx, cfg):
+    """"the module's success or failure is what the caller sees, and a failing module aborts the transaction like any other
+    error" for messages emitted by contracts: the failure cells of the execute_submsg decision table (C02.R2) under C17's id -
+    a failed dispatch is returned as it is unless the sub-message asked for a reply on error"""
+    from rules import C02
+    C02.r2(ctx, cfg, R="C17.R8", only=lambda oc, ro: oc == "Err")
 
 
 def r7(ctx, cfg):
